@@ -86,6 +86,20 @@ func runC04(c *ShardCtx) {
 			if want, got := len(g.Blocks()), len(b.Prefix.Blocks); !gen.OptGrammar && want != got {
 				c.Report(Violation{Desc: fmt.Sprintf("%d code blocks but %d on-methods emitted", want, got), Grammar: text, Gen: gen.String()}, "")
 			}
+			// each method receives EXACTLY the labels of its block's scope (reference scope rule)
+			if !gen.OptGrammar {
+				byID := map[int]*peg.Expr{}
+				for _, blk := range g.Blocks() {
+					byID[blk.ID] = blk
+				}
+				for _, name := range b.Prefix.Order {
+					eb := b.Prefix.Blocks[name]
+					if blk := byID[eb.ID]; blk != nil && eb.Helper != "" && fmt.Sprint(eb.Params) != fmt.Sprint(blk.Args) {
+						c.Report(Violation{Desc: fmt.Sprintf("method %s receives %v, the labels in the scope of its code block are %v", name, eb.Params, blk.Args), Grammar: text, Gen: gen.String()}, "")
+						break
+					}
+				}
+			}
 			if compile {
 				addBatch(strings.Replace(text, "package vgram", "package PKG", 1), gen.Argv(), why, false)
 			}
